@@ -13,6 +13,7 @@ import (
 	"reflect"
 	"strconv"
 	"sync"
+	"sync/atomic"
 	"time"
 
 	"google.golang.org/grpc"
@@ -399,6 +400,19 @@ func handleStream(svr interface{}, serviceName string, desc *grpc.StreamDesc, st
 		} else {
 			err = desc.Handler(svr, str)
 		}
+
+		// The handler has returned: from here on its stream must not touch the
+		// request or the response writer any more (net/http recycles both once
+		// this function returns). A goroutine the handler left behind that
+		// still uses the stream gets errors, like with the in-process channel,
+		// instead of writing into a recycled buffer (or crashing the process).
+		// Holding wmu also keeps the final trailer apart from a send that such
+		// a goroutine has in progress.
+		str.wmu.Lock()
+		defer str.wmu.Unlock()
+		str.finished = true
+		atomic.StoreInt32(&str.readFinished, 1)
+
 		if str.writeFailed {
 			// nothing else we can do
 			return
@@ -502,13 +516,20 @@ type serverStream struct {
 	// recvd tracks the number of request messages received
 	recvd int
 
-	// wmu serializes access to w and protects headersSent, writeFailed, and tr
+	// readFinished is set (atomically) once the handler has returned
+	readFinished int32
+
+	// wmu serializes access to w and protects headersSent, writeFailed,
+	// finished, and tr
 	wmu         sync.Mutex
 	w           http.ResponseWriter
 	headersSent bool
 	writeFailed bool
+	finished    bool // the handler has returned
 	tr          []metadata.MD
 }
+
+var errStreamFinished = errors.New("stream is finished: the handler has returned")
 
 func (s *serverStream) SetHeader(md metadata.MD) error {
 	return s.setHeader(md, false)
@@ -522,6 +543,9 @@ func (s *serverStream) setHeader(md metadata.MD, send bool) error {
 	s.wmu.Lock()
 	defer s.wmu.Unlock()
 
+	if s.finished {
+		return errStreamFinished
+	}
 	if s.headersSent {
 		return errors.New("headers already sent")
 	}
@@ -541,6 +565,10 @@ func (s *serverStream) SetTrailer(md metadata.MD) {
 	s.wmu.Lock()
 	defer s.wmu.Unlock()
 
+	if s.finished {
+		return // too late: the trailers have been sent
+	}
+
 	// copy: the trailers are only put together when the handler returns,
 	// and the caller is free to re-use md in the meantime
 	s.tr = append(s.tr, md.Copy())
@@ -554,10 +582,11 @@ func (s *serverStream) SendMsg(m interface{}) error {
 	s.wmu.Lock()
 	defer s.wmu.Unlock()
 
-	if s.writeFailed {
+	if s.writeFailed || s.finished {
 		// strange, but simulates what happens in real GRPC: stream
-		// is closed after a write failure, and trying to send message
-		// on a closed stream returns EOF
+		// is closed after a write failure (or once the handler has
+		// returned), and trying to send message on a closed stream
+		// returns EOF
 		return io.EOF
 	}
 
@@ -575,6 +604,9 @@ func (s *serverStream) SendMsg(m interface{}) error {
 }
 
 func (s *serverStream) RecvMsg(m interface{}) error {
+	if atomic.LoadInt32(&s.readFinished) != 0 {
+		return errStreamFinished
+	}
 	s.rmu.Lock()
 	defer s.rmu.Unlock()
 
